@@ -349,15 +349,33 @@ class InProtocolBase(ProtocolMixin):
 
     def decimal_from_unicode(self, cls, string):
         cls_attrs = self.get_cls_attrs(cls)
+
+        if isinstance(string, (six.integer_types, float, D)) \
+                                             and not isinstance(string, bool):
+            # a document that carries the number itself instead of its text
+            # (eg. 1.5 instead of "1.5" in json). the shortest text that reads
+            # back as the same number is what the sender wrote.
+            string = str(string)
+
+        elif not isinstance(string, six.string_types):
+            raise ValidationError(string, "%r is not a decimal number")
+
         if cls_attrs.max_str_len is not None and len(string) > \
                                                      cls_attrs.max_str_len:
             raise ValidationError(string, "Decimal %%r longer than %d "
                                           "characters" % cls_attrs.max_str_len)
 
         try:
-            return D(string)
+            retval = D(string)
         except InvalidOperation as e:
             raise ValidationError(string, "%%r: %r" % e)
+
+        if not retval.is_finite():
+            # xs:decimal has no NaN and no infinity. these can't be compared
+            # with the range facets either: a NaN raises InvalidOperation
+            raise ValidationError(string, "%r is not a finite decimal number")
+
+        return retval
 
     def decimal_from_bytes(self, cls, string):
         return self.decimal_from_unicode(cls,
